@@ -148,6 +148,18 @@ func singleReturnExpr(d *ast.FuncDecl) ast.Expr {
 // evalCall evaluates a call inside an expression (no forking allowed).
 func (st *State) evalCall(call *ast.CallExpr) []Val {
 	outs := st.execCallValues(call)
+	if len(outs) > 1 {
+		// a callee that may panic inside an expression: the panic must be unreachable here
+		var keep []Outcome
+		for _, o := range outs {
+			if o.kind == oPanic {
+				o.st.oblige("call-pre", "no-panic("+exprStr(call)+")", "false", call.Pos())
+				continue
+			}
+			keep = append(keep, o)
+		}
+		outs = keep
+	}
 	if len(outs) != 1 || outs[0].kind != oNormal {
 		panic(vcErr("call " + exprStr(call) + " forks or does not return normally; it needs a contract or must be a statement"))
 	}
@@ -363,6 +375,15 @@ func (st *State) callFunc(fn *types.Func, recv *Val, args []Val, call *ast.CallE
 		return []Outcome{{st: st, kind: oNormal, vals: vals}}
 	}
 	if fct := V.contractFor(fn); fct != nil && !fct.Inline {
+		if len(fct.PanicsIf) > 0 {
+			// the callee panics exactly when its panics_if holds: fork a panicking outcome
+			cond := st.calleePanicCond(fct, fn, recv, args)
+			ps := st.clone()
+			ps.facts = ps.facts.push(guarded(ps.guard, cond))
+			st.facts = st.facts.push(guarded(st.guard, sNot(cond)))
+			vals := st.applyContract(fct, fn, recv, args, call)
+			return []Outcome{{st: st, kind: oNormal, vals: vals}, {st: ps, kind: oPanic}}
+		}
 		vals := st.applyContract(fct, fn, recv, args, call)
 		return []Outcome{{st: st, kind: oNormal, vals: vals}}
 	}
@@ -858,9 +879,6 @@ func (st *State) applyContract(fct *FuncContract, fn *types.Func, recv *Val, arg
 	for i, r := range fct.Requires {
 		st.oblige("call-pre", fmt.Sprintf("%s/requires%d", tag, i+1), env.evalBool(r.Expr), pos)
 	}
-	for i, r := range fct.PanicsIf {
-		st.oblige("call-pre", fmt.Sprintf("%s/no-panic%d", tag, i+1), sNot(env.evalBool(r.Expr)), pos)
-	}
 	st.checkCallLocks(fct, names, tag, pos)
 	old := st.snapshot(names)
 	// frame: havoc the modifies footprint
@@ -1029,6 +1047,13 @@ func (st *State) havocTargets(env *SpecEnv, mods []*Clause, old *Snapshot) {
 			}
 			st.assume(fmt.Sprintf("(forall ((g_a Int) (g_i Int)) (! (=> (and (< g_a %s) (not %s)) (= (select (select %s g_a) g_i) (select (select %s g_a) g_i))) :pattern ((select (select %s g_a) g_i))))",
 				old.alloc, sOr(in...), newH, oldH, newH))
+			// row-level consequence (extensionality): arrays not named by any target are untouched as a whole
+			var notArr []string
+			for _, t := range h.targets {
+				notArr = append(notArr, sNot(sEq("g_a", t.arr)))
+			}
+			st.assume(fmt.Sprintf("(forall ((g_a Int)) (! (=> (and (< g_a %s) %s) (= (select %s g_a) (select %s g_a))) :pattern ((select %s g_a))))",
+				old.alloc, sAnd(notArr...), newH, oldH, newH))
 		} else {
 			var in []string
 			for _, t := range h.targets {
@@ -1258,3 +1283,34 @@ func (st *State) checkGuardedRead(e ast.Expr) {
 }
 
 func lockKey(s string) string { return strings.ReplaceAll(s, " ", "") }
+
+// calleePanicCond evaluates the disjunction of a callee's panics_if clauses at the call site.
+func (st *State) calleePanicCond(fct *FuncContract, fn *types.Func, recv *Val, args []Val) string {
+	sig := fn.Type().(*types.Signature)
+	names := map[string]Val{}
+	if recv != nil && sig.Recv() != nil {
+		rn := sig.Recv().Name()
+		if fi := st.fc.V.funcInfo(fn); fi != nil && fi.Decl.Recv != nil && len(fi.Decl.Recv.List[0].Names) == 1 {
+			rn = fi.Decl.Recv.List[0].Names[0].Name
+		}
+		if rn != "" && rn != "_" {
+			names[rn] = *recv
+		}
+	}
+	for i := 0; i < sig.Params().Len() && i < len(args); i++ {
+		if n := sig.Params().At(i).Name(); n != "" && n != "_" {
+			a := args[i]
+			if a.T == nil {
+				a.T = sig.Params().At(i).Type()
+			}
+			names[n] = a
+		}
+	}
+	q := 0
+	env := &SpecEnv{st: st, names: names, pkg: st.fc.V.pkgByName[fct.Pkg], what: fct.Pkg + "." + fct.Key + "/panics_if", qcount: &q}
+	var ds []string
+	for _, p := range fct.PanicsIf {
+		ds = append(ds, env.evalBool(p.Expr))
+	}
+	return st.define("calleepanics", "Bool", sOr(ds...))
+}
